@@ -306,13 +306,18 @@ def gen_modgraph(rng, profile=None):
 
 # ----------------------------------------------------------------- rendering
 def _use_line(rng_case, u):
-    pre = {"": "use ", "::": "use :: ", "non_intrinsic": "use, non_intrinsic :: "}[u.get("prefix") or ""]
-    s = pre + u["mod"]
+    """Fortran is case-insensitive and liberal with blanks: the spelling is varied per statement."""
+    c = lambda x: _case(rng_case, x, 0.12)  # noqa: E731
+    arrow = rng_case.choice([" => ", "=>", " =>", "=> "])
+    kw = rng_case.choice(["use", "use", "use", "USE", "Use"])
+    pre = {"": kw + " ", "::": kw + " :: ", "non_intrinsic": rng_case.choice([kw + ", non_intrinsic :: ", kw + ",non_intrinsic::", kw + " , NON_INTRINSIC :: "])}[u.get("prefix") or ""]
+    s = pre + c(u["mod"])
     if u.get("only") is not None:
-        items = [(l if l == r else "%s => %s" % (l, r)) for l, r in u["only"]]
-        s += ", only: " + ", ".join(items) if items else ", only:"
+        items = [(c(l) if l == r else "%s%s%s" % (c(l), arrow, c(r))) for l, r in u["only"]]
+        only = rng_case.choice([", only: ", ", only : ", ",only:", ", ONLY: "])
+        s += only + ", ".join(items) if items else ", only:"
     elif u.get("renames"):
-        s += ", " + ", ".join("%s => %s" % (l, r) for l, r in u["renames"])
+        s += ", " + ", ".join("%s%s%s" % (c(l), arrow, c(r)) for l, r in u["renames"])
     return s
 
 
